@@ -32,7 +32,7 @@ RefClass(p) ==
           ELSE "plain"
 MkAtk(fam, p, pkt, at, ifin, now, down, nf) ==
   [fam |-> fam, p |-> p, pkt |-> pkt, at |-> at, ifin |-> ifin, now |-> now, down |-> down, nf |-> nf, oh |-> FALSE,
-   cls |-> RefClass(pkt.segs)]
+   cls |-> RefClass(pkt.segs), sched |-> <<>>]
 
 Junk == [junk |-> 1]
 OrigMac(I, h) == IF h.seg = 0 THEN Junk
@@ -72,6 +72,28 @@ LinkDown(I) ==
          sets == {D \in SUBSET ls : D # {} /\ (Cardinality(D) <= 2 \/ D = ls)}
      IN {MkAtk("linkdown", TRUE, pk, s, 0, PktMaxTs(pk), D, Cardinality(D)) : D \in sets}
      : p \in BasePaths(I, sd)} : sd \in I.pairs}
+
+\* Link state changing WHILE the packet travels: sched[n] = set of links that are down when the n-th AS step is
+\* taken (the last entry stays in force).  One on-path link goes down, or comes up, before step n.
+Toggle(I) ==
+  UNION {UNION {
+     LET s == sd[1]  d == sd[2]  pk == MkPkt(p, s, d)  ls == LinksOnPath(I.T, p)  ns == Len(AsSeq(p)) IN
+     UNION {UNION {
+        {[MkAtk("toggle-down", TRUE, pk, s, 0, PktMaxTs(pk), {}, 1) EXCEPT !.sched = [k \in 1..ns |-> IF k < n THEN {} ELSE {l}]],
+         [MkAtk("toggle-up", TRUE, pk, s, 0, PktMaxTs(pk), {l}, 1) EXCEPT !.sched = [k \in 1..ns |-> IF k < n THEN {l} ELSE {}]]}
+        : n \in 2..ns} : l \in ls}
+     : p \in BasePaths(I, sd)} : sd \in I.pairs}
+
+\* traversal under a link-state schedule
+DownAt(a, n) == IF a.sched = <<>> THEN a.down ELSE a.sched[IF n <= Len(a.sched) THEN n ELSE Len(a.sched)]
+RECURSIVE WalkS(_, _, _, _, _, _)
+WalkS(T, a, pkt, x, ifin, trace) ==
+  LET n == Len(trace) + 1
+      up == UpMap(T, DownAt(a, n))
+      r == Step(T, up, a.now, pkt, x, ifin)
+      t2 == Append(trace, [as |-> x, ifin |-> ifin, ci |-> pkt.ci, ch |-> pkt.ch, k |-> r.k, class |-> r.class])
+  IN IF r.k = "fwd" /\ Len(t2) <= 64 THEN WalkS(T, a, r.pkt, r.as, r.if, t2)
+     ELSE [trace |-> t2, res |-> r, faults |-> IF r.k = "reject" THEN Faults(T, up, a.now, pkt, x, ifin) ELSE {}]
 
 IfsOf(T, x) == {OwnIf(T, l, x) : l \in {l \in LinkIds(T) : x \in {T.links[l].a, T.links[l].b}}}
 Ingress(I) ==
@@ -216,10 +238,11 @@ OneHop(I) ==
 
 -----------------------------------------------------------------------------
 Attacks(I) ==
-  Honest(I) \cup Clock(I) \cup LinkDown(I) \cup Ingress(I) \cup Corrupt(I) \cup Recomb(I) \cup Splice(I) \cup PeerMix(I) \cup OneHop(I)
+  Honest(I) \cup Clock(I) \cup LinkDown(I) \cup Toggle(I) \cup Ingress(I) \cup Corrupt(I) \cup Recomb(I) \cup Splice(I) \cup PeerMix(I) \cup OneHop(I)
 
 Verdict(I, a) ==
   IF a.oh THEN OhWalk(I.T, UpMap(I.T, a.down), a.now, a.pkt, a.at)
+  ELSE IF a.sched # <<>> THEN WalkS(I.T, a, a.pkt, a.at, a.ifin, <<>>)
   ELSE Walk(I.T, UpMap(I.T, a.down), a.now, a.pkt, a.at, a.ifin, <<>>)
 
 AtkHopOut(I, h) == [seg |-> h.seg, idx |-> h.idx, pk |-> h.pk, in |-> h.in, eg |-> h.eg, exp |-> h.exp,
@@ -240,6 +263,7 @@ AtkOut(I, a) ==
    pieces |-> [k \in DOMAIN a.pkt.segs |-> AtkPieceOut(I, a.pkt.segs[k])],
    ci |-> a.pkt.ci, ch |-> a.pkt.ch, src |-> a.pkt.src, dst |-> a.pkt.dst,
    at |-> a.at, ifin |-> a.ifin, now |-> a.now, down |-> SetToSortedSeq(a.down), nf |-> a.nf,
+   sched |-> [n \in DOMAIN a.sched |-> SetToSortedSeq(a.sched[n])],
    verdict |-> [k |-> w.res.k, as |-> w.res.as, class |-> w.res.class, faults |-> SeqOfSet(w.faults), steps |-> Len(w.trace)],
    walk |-> TraceOut(w.trace)]
 
@@ -286,7 +310,17 @@ ValleyFreeWalk(T, a, w) ==
          flip(t) == CASE t = "parent" -> "child" [] t = "child" -> "parent" [] OTHER -> t
      IN ValleyFreeKinds([n \in DOMAIN ks |-> flip(ks[n])])
 
+\* forwarding only over links that exist and are up AT THE MOMENT the AS step is taken
+CrossedLinksUp(T, a, w) ==
+  \A n \in 1..(Len(w.trace) - 1) :
+     LET l == LinkAt(T, w.trace[n + 1].as, w.trace[n + 1].ifin) IN
+     l # 0 /\ l \notin DownAt(a, n) /\ FarAs(T, l, w.trace[n + 1].as) = w.trace[n].as
+\* a link that fails only after the packet crossed it (or that is never crossed) does not matter
+LateFailureHarmless(I, a, w) ==
+  (a.fam = "toggle-down" /\ w.res.k = "reject") => w.res.class = "ifdown"
+
 AttackTheorems(I, a) ==
   a.oh \/ LET w == Verdict(I, a) IN
-          Monotone(a, w) /\ DeliverAtDst(a, w) /\ AuthenticUse(I, a, w) /\ NoSplice(a, w) /\ ValleyFreeWalk(I.T, a, w)
+          /\ Monotone(a, w) /\ DeliverAtDst(a, w) /\ AuthenticUse(I, a, w) /\ NoSplice(a, w) /\ ValleyFreeWalk(I.T, a, w)
+          /\ CrossedLinksUp(I.T, a, w) /\ LateFailureHarmless(I, a, w)
 =============================================================================
